@@ -88,8 +88,8 @@ PROPS = {
             "technique": "Lean 4 proof (partial + counterexample theorems) + Spec oracle on the real code's observations",
             "design_ref": "DESIGN.md §5 C03",
         },
-        "lean_props": ["C03", "C03I", "C08", "C10", "EngineThms", "LinksThms"],
-        "streams": [SOL, HIST, HISTUC, INIT],
+        "lean_props": ["C03", "C03I", "C08", "C10", "EngineThms", "LinksThms", "C16U"],
+        "streams": [SOL, HIST, HISTUC, INIT, {"name": "units", "corpus": True}],
     },
     "C04": {
         "claim": {
@@ -343,9 +343,9 @@ PROPS = {
             "technique": "Lean 4 proof (index arithmetic over regenerated size expressions) + crash differential on the real code",
             "design_ref": "DESIGN.md §5 C16",
         },
-        "lean_props": ["C16", "C01M"],
+        "lean_props": ["C16", "C01M", "C16U"],
         "facts": ["FrontFacts"],
-        "streams": [{"name": "crash", "corpus": True, "model": False}, HIST, RC, APIBM],
+        "streams": [{"name": "crash", "corpus": True, "model": False}, HIST, RC, APIBM, {"name": "units", "corpus": True}],
         "also": [],
     },
     "C17": {
